@@ -840,5 +840,562 @@ theorem S_takePad {w n : Nat} (hw : 1 ≤ w) (hn : 1 ≤ n) (D : List Nat) (hne 
     rw [show n - D.length = 0 by omega]
     simp only [List.replicate_zero, List.append_nil]
     exact (S_truncate hw hn hD hL hrep).1
+/-- a byte string -/
+def Bytes (bs : List Nat) : Prop := ∀ b ∈ bs, b < 256
+
+theorem B8 : B 8 = 256 := by unfold B; rfl
+theorem B_bytes (bw : Nat) : B (8 * bw) = M 8 bw := rfl
+theorem M_bytes (bw k : Nat) : M (8 * bw) k = M 8 (bw * k) := by unfold M; rw [Nat.mul_assoc]
+
+theorem Bytes.wf {bs : List Nat} (h : Bytes bs) : WF 8 bs.length bs := ⟨rfl, by rw [B8]; exact h⟩
+
+/-- the byte string padded to a whole number of digits -/
+def padTo (bw pad : Nat) (bs : List Nat) : List Nat :=
+  bs ++ List.replicate (if bs.length % bw = 0 then 0 else bw - bs.length % bw) pad
+
+theorem U_chunks (bw : Nat) : ∀ (k : Nat) (bs : List Nat), k * bw ≤ bs.length →
+    U (8 * bw) ((chunks bw k bs).map (U 8)) = U 8 (bs.take (k * bw)) := by
+  intro k
+  induction k with
+  | zero => intro bs _; simp [chunks]
+  | succ k ih =>
+    intro bs h
+    rw [Nat.add_mul, Nat.one_mul] at h
+    simp only [chunks, List.map_cons, U_cons]
+    rw [ih _ (by simp; omega), Nat.add_mul, Nat.one_mul, Nat.add_comm (k * bw) bw, List.take_add,
+      U_append, List.length_take, Nat.min_eq_left (by omega), ← M_eq_pow, B_bytes]
+
+theorem chunks_lt (bw : Nat) : ∀ (k : Nat) (bs : List Nat), Bytes bs → k * bw ≤ bs.length →
+    ∀ d ∈ (chunks bw k bs).map (U 8), d < B (8 * bw) := by
+  intro k
+  induction k with
+  | zero => intro bs _ _ d hd; simp [chunks] at hd
+  | succ k ih =>
+    intro bs hb h d hd
+    rw [Nat.add_mul, Nat.one_mul] at h
+    simp only [chunks, List.map_cons, List.mem_cons] at hd
+    rcases hd with rfl | hd
+    · rw [B_bytes]
+      apply U_lt
+      exact ⟨by simp; omega, fun b hb' => by rw [B8]; exact hb b (List.mem_of_mem_take hb')⟩
+    · exact ih (bs.drop bw) (fun b hb' => hb b (List.mem_of_mem_drop hb')) (by simp; omega) d hd
+
+theorem digitsLE_lt {bw pad : Nat} (hbw : 0 < bw) (hpad : pad < 256) {bs : List Nat} (hb : Bytes bs) :
+    ∀ d ∈ digitsLE bw pad bs, d < B (8 * bw) := by
+  intro d hd
+  unfold digitsLE at hd
+  have hdm := Nat.div_add_mod bs.length bw
+  have hml := Nat.mod_lt bs.length hbw
+  have hmul : bs.length / bw * bw = bw * (bs.length / bw) := Nat.mul_comm _ _
+  rw [List.mem_append] at hd
+  rcases hd with hd | hd
+  · exact chunks_lt bw _ bs hb (by omega) d hd
+  · split at hd
+    · simp at hd
+    · simp only [List.mem_singleton] at hd
+      subst hd
+      rw [B_bytes]
+      apply U_lt
+      refine ⟨by simp; omega, ?_⟩
+      intro b hb'
+      rw [B8]
+      rw [List.mem_append] at hb'
+      rcases hb' with h | h
+      · exact hb b (List.mem_of_mem_drop h)
+      · rw [List.mem_replicate] at h; omega
+
+theorem digitsLE_length {bw : Nat} (hbw : 0 < bw) (pad : Nat) (bs : List Nat) :
+    bw * (digitsLE bw pad bs).length = (padTo bw pad bs).length := by
+  unfold digitsLE padTo
+  have hdm := Nat.div_add_mod bs.length bw
+  have hml := Nat.mod_lt bs.length hbw
+  by_cases h : bs.length % bw = 0
+  · simp [h, chunks_length]; omega
+  · simp [h, chunks_length, Nat.mul_add]; omega
+
+theorem digitsLE_U {bw : Nat} (hbw : 0 < bw) (pad : Nat) (bs : List Nat) :
+    U (8 * bw) (digitsLE bw pad bs) = U 8 (padTo bw pad bs) := by
+  unfold digitsLE padTo
+  have hdm := Nat.div_add_mod bs.length bw
+  have hml := Nat.mod_lt bs.length hbw
+  have hmul : bs.length / bw * bw = bw * (bs.length / bw) := Nat.mul_comm _ _
+  by_cases h : bs.length % bw = 0
+  · simp only [h, if_true, List.append_nil, List.replicate_zero]
+    rw [U_chunks bw _ bs (by omega), List.take_of_length_le (by omega)]
+  · simp only [h, if_false]
+    rw [U_append, U_chunks bw _ bs (by omega), List.length_map, chunks_length, U_cons, U_nil,
+      Nat.mul_zero, Nat.add_zero, ← M_eq_pow, M_bytes]
+    conv_rhs => rw [← List.take_append_drop (bs.length / bw * bw) bs, List.append_assoc, U_append]
+    rw [List.length_take, Nat.min_eq_left (by omega), ← M_eq_pow, hmul, List.take_append_drop]
+
+theorem digitsLE_ne_nil {bw : Nat} (hbw : 0 < bw) (pad : Nat) {bs : List Nat} (hne : bs ≠ []) :
+    digitsLE bw pad bs ≠ [] := by
+  intro h
+  have h1 := digitsLE_length hbw pad bs
+  rw [h] at h1
+  have : 0 < bs.length := List.length_pos_iff.mpr hne
+  simp [padTo] at h1; omega
+
+theorem digitsLE_S {bw : Nat} (hbw : 0 < bw) (pad : Nat) (bs : List Nat) :
+    S (8 * bw) (digitsLE bw pad bs) = S 8 (padTo bw pad bs) := by
+  unfold S
+  rw [digitsLE_U hbw, M_bytes, digitsLE_length hbw]
+theorem ofNat_length (w : Nat) : ∀ (n v : Nat), (ofNat w n v).length = n := by
+  intro n; induction n with
+  | zero => intro v; rfl
+  | succ n ih => intro v; simp [ofNat, ih]
+
+theorem WF_ofNat (w : Nat) : ∀ (n v : Nat), WF w n (ofNat w n v) := by
+  intro n; induction n with
+  | zero => intro v; exact WF_nil w
+  | succ n ih => intro v; rw [ofNat, WF_cons]; exact ⟨Nat.mod_lt _ (B_pos w), ih _⟩
+
+theorem U_ofNat (w : Nat) : ∀ (n v : Nat), U w (ofNat w n v) = v % M w n := by
+  intro n; induction n with
+  | zero => intro v; simp [ofNat, M_zero, Nat.mod_one]
+  | succ n ih =>
+    intro v
+    rw [ofNat, U_cons, ih, M_succ, Nat.mod_mul]
+
+theorem eq_ofNat {w n : Nat} {x : List Nat} (hx : WF w n x) : x = ofNat w n (U w x) := by
+  apply U_injective hx (WF_ofNat w n _)
+  rw [U_ofNat, Nat.mod_eq_of_lt (U_lt hx)]
+
+theorem eq_ofInt {w n : Nat} {x : List Nat} (hx : WF w n x) : x = ofInt w n (S w x) := by
+  unfold ofInt wrapU
+  rw [S_emod hx]; simpa using eq_ofNat hx
+
+theorem ofNat_zero (w : Nat) : ∀ n, ofNat w n 0 = List.replicate n 0 := by
+  intro n; induction n with
+  | zero => rfl
+  | succ n ih => simp [ofNat, ih, List.replicate_succ]
+
+theorem ofNat_mod (w n v : Nat) : ofNat w n (v % M w n) = ofNat w n v := by
+  apply U_injective (WF_ofNat _ _ _) (WF_ofNat _ _ _)
+  rw [U_ofNat, U_ofNat, Nat.mod_mod]
+
+/-! ### Spec ↔ `U 8` / `S 8` -/
+open Spec.Endian
+
+theorem leValue_eq (bs : List Nat) : leValue bs = U 8 bs := by
+  induction bs with
+  | nil => rfl
+  | cons b bs ih => rw [leValue, U_cons, ih, B8]
+
+theorem beValue_append (bs : List Nat) (b : Nat) : beValue (bs ++ [b]) = beValue bs * 256 + b := by
+  unfold beValue; rw [List.foldl_append]; rfl
+
+theorem beValue_eq (bs : List Nat) : beValue bs = U 8 bs.reverse := by
+  induction bs using List.reverseRecOn with
+  | nil => rfl
+  | append_singleton bs b ih =>
+    rw [beValue_append, ih, List.reverse_append, List.reverse_singleton, List.singleton_append,
+      U_cons, B8]; omega
+
+theorem beValue_eq_leValue_reverse (bs : List Nat) : beValue bs = leValue bs.reverse := by
+  rw [beValue_eq, leValue_eq]
+
+theorem byteIsNeg_last {bs : List Nat} (hb : Bytes bs) (hne : bs ≠ []) :
+    Prim.byteIsNeg (bs.getLast hne) = decide (S 8 bs < 0) := by
+  have hl : 1 ≤ bs.length := List.length_pos_iff.mpr hne
+  have := S_neg_top (w := 8) (by decide) hl hb.wf
+  unfold Prim.byteIsNeg
+  apply decide_eq_decide.mpr
+  rw [this, List.getLastD_eq_getLast?, List.getLast?_eq_some_getLast hne, Option.getD_some, B8]
+  omega
+
+theorem twosLE_eq {bs : List Nat} (hb : Bytes bs) : twosLE bs = S 8 bs := by
+  unfold twosLE
+  by_cases hne : bs = []
+  · subst hne; simp [S, toInt, M]
+  · rw [List.getLast?_eq_some_getLast hne]
+    simp only
+    have h1 := byteIsNeg_last hb hne
+    unfold Prim.byteIsNeg at h1
+    have h2 := decide_eq_decide.mp h1
+    have hM : (256 : Int) ^ bs.length = (M 8 bs.length : Int) := by
+      unfold M; rw [Nat.pow_mul]; push_cast; rfl
+    rw [leValue_eq, hM]
+    split
+    · rename_i h; exact (S_eq_of_neg hb.wf (h2.mp h)).symm
+    · rename_i h; exact (S_eq_of_nonneg hb.wf (mt h2.mpr h)).symm
+
+theorem twosBE_eq_twosLE_reverse (bs : List Nat) : twosBE bs = twosLE bs.reverse := by
+  cases bs with
+  | nil => rfl
+  | cons b bs =>
+    unfold twosBE twosLE
+    simp only [List.reverse_cons, List.getLast?_append, List.getLast?_singleton, Option.some_or]
+    rw [beValue_eq_leValue_reverse]; simp
+
+theorem Bytes.reverse {bs : List Nat} (h : Bytes bs) : Bytes bs.reverse := by
+  intro b hb; exact h b (List.mem_reverse.mp hb)
+
+theorem padTo_zero_U (bw : Nat) (bs : List Nat) : U 8 (padTo bw 0 bs) = U 8 bs := by
+  unfold padTo; rw [U_append, U_replicate_zero]; simp
+
+theorem padTo_sign_S {bs : List Nat} (bw : Nat) (hb : Bytes bs) (hne : bs ≠ []) :
+    S 8 (padTo bw (padByte (Prim.byteIsNeg (bs.getLast hne))) bs) = S 8 bs := by
+  have hl : 1 ≤ bs.length := List.length_pos_iff.mpr hne
+  have := S_sign_extend (w := 8) (by decide) hl hb.wf
+    (if bs.length % bw = 0 then 0 else bw - bs.length % bw)
+  rw [B8] at this
+  unfold padTo padByte
+  rw [byteIsNeg_last hb hne]
+  simpa using this
 end Endian
+open Endian List Spec.Endian
+
+theorem pow_pos_bw {bw sh : Nat} (hbw : bw = 2 ^ sh) : 0 < bw := by
+  subst hbw; exact Nat.pow_pos (by decide)
+
+/-- closed form of `BUint::from_le_slice` -/
+theorem UI.fromLeSlice_closed {bw sh : Nat} (hbw : bw = 2 ^ sh) (n : Nat) {bs : List Nat}
+    (hb : Bytes bs) :
+    UI.fromLeSlice bw n bs
+      = .ok (if leValue bs < M (8 * bw) n then some (ofNat (8 * bw) n (leValue bs)) else none) := by
+  have hpos := pow_pos_bw hbw
+  have hD := digitsLE_lt hpos (by decide : 0 < 256) hb
+  have hU : U (8 * bw) (digitsLE bw 0 bs) = leValue bs := by
+    rw [digitsLE_U hpos, padTo_zero_U, leValue_eq]
+  rw [UI.fromLeSlice_eq hbw, placeU_spec _ hD, hU]
+  congr 1
+  split
+  · rename_i h
+    congr 1
+    have hwf : WF (8 * bw) n _ := WF_takePad (n := n) hD (B_pos _)
+    rw [eq_ofNat hwf, U_takePad _ (by rw [hU]; exact h), hU]
+  · rfl
+
+/-- closed form of `BUint::from_be_slice` -/
+theorem UI.fromBeSlice_closed {bw sh : Nat} (hbw : bw = 2 ^ sh) (n : Nat) {bs : List Nat}
+    (hb : Bytes bs) :
+    UI.fromBeSlice bw n bs
+      = .ok (if beValue bs < M (8 * bw) n then some (ofNat (8 * bw) n (beValue bs)) else none) := by
+  rw [UI.fromBeSlice_eq_fromLeSlice hbw, UI.fromLeSlice_closed hbw n hb.reverse,
+    beValue_eq_leValue_reverse]
+
+/-- closed form of `BInt::from_le_slice` -/
+theorem II.fromLeSlice_closed {bw sh : Nat} (hbw : bw = 2 ^ sh) {n : Nat} (hn : 1 ≤ n)
+    {bs : List Nat} (hb : Bytes bs) :
+    II.fromLeSlice bw n bs
+      = .ok (if repS (M (8 * bw) n) (twosLE bs) then some (ofInt (8 * bw) n (twosLE bs)) else none) := by
+  have hpos := pow_pos_bw hbw
+  have hw : 1 ≤ 8 * bw := by omega
+  by_cases hne : bs = []
+  · subst hne
+    have hM := M_pos (8 * bw) n
+    have : repS (M (8 * bw) n) (twosLE []) := by unfold repS twosLE; simp; omega
+    rw [II.fromLeSlice_nil, if_pos this]
+    simp [twosLE, ofInt, wrapU, ofNat_zero]
+  · rw [II.fromLeSlice_eq hbw hn bs hne]
+    have hpad : padByte (Prim.byteIsNeg (bs.getLast hne)) < 256 := by unfold padByte; split <;> omega
+    have hD := digitsLE_lt hpos hpad hb
+    have hDne := digitsLE_ne_nil hpos (padByte (Prim.byteIsNeg (bs.getLast hne))) hne
+    have hS : S (8 * bw) (digitsLE bw (padByte (Prim.byteIsNeg (bs.getLast hne))) bs) = twosLE bs := by
+      rw [digitsLE_S hpos, padTo_sign_S bw hb hne, twosLE_eq hb]
+    have hneg : Prim.byteIsNeg (bs.getLast hne)
+        = decide (S (8 * bw) (digitsLE bw (padByte (Prim.byteIsNeg (bs.getLast hne))) bs) < 0) := by
+      rw [hS, twosLE_eq hb]; exact byteIsNeg_last hb hne
+    generalize hDdef : digitsLE bw (padByte (Prim.byteIsNeg (bs.getLast hne))) bs = D at *
+    rw [hneg, placeI_spec hw hn D hDne hD, ← hS]
+    congr 1
+    split
+    · rename_i h
+      congr 1
+      have hwf : WF (8 * bw) n _ :=
+        WF_takePad (n := n) hD (signBits_lt (8 * bw) (decide (S (8 * bw) D < 0)))
+      rw [eq_ofInt hwf, S_takePad hw hn D hDne hD h]
+    · rfl
+
+/-- closed form of `BInt::from_be_slice` -/
+theorem II.fromBeSlice_closed {bw sh : Nat} (hbw : bw = 2 ^ sh) {n : Nat} (hn : 1 ≤ n)
+    {bs : List Nat} (hb : Bytes bs) :
+    II.fromBeSlice bw n bs
+      = .ok (if repS (M (8 * bw) n) (twosBE bs) then some (ofInt (8 * bw) n (twosBE bs)) else none) := by
+  rw [II.fromBeSlice_eq_fromLeSlice hbw hn, II.fromLeSlice_closed hbw hn hb.reverse,
+    twosBE_eq_twosLE_reverse]
+namespace Endian
+/-- a loop whose successive states are `f 0, f 1, …` -/
+theorem forLoop_seq {σ : Type} (body : Nat → σ → Outcome σ) :
+    ∀ (k lo : Nat) (f : Nat → σ), (∀ t, t < k → body (lo + t) (f t) = .ok (f (t + 1))) →
+      forLoop body k lo (f 0) = .ok (f k) := by
+  intro k
+  induction k with
+  | zero => intro lo f _; rfl
+  | succ k ih =>
+    intro lo f h
+    have h0 := h 0 (by omega)
+    rw [Nat.add_zero] at h0
+    rw [forLoop, h0]
+    simp only
+    exact ih (lo + 1) (fun t => f (t + 1)) (by
+      intro t ht
+      have := h (t + 1) (by omega)
+      simpa [Nat.add_assoc, Nat.add_comm 1 t] using this)
+
+theorem putDigitBytes_eq {bw sh : Nat} (hbw : bw = 2 ^ sh) (i : Nat) (db bytes : List Nat)
+    (hdb : db.length = bw) (h : i * bw + bw ≤ bytes.length) :
+    putDigitBytes bw i db bytes = .ok (bytes.take (i * bw) ++ db ++ bytes.drop (i * bw + bw)) := by
+  unfold putDigitBytes
+  simp only [shl_byteShift hbw]
+  rw [forLoop_copy _ db bytes.length bw 0 (i * bw) 0 bytes _ rfl h (by omega)]
+  · simp [← hdb]
+  · intro t db' h1 ht hl
+    simp only [Nat.zero_add] at h1 ⊢
+    rw [idx_eq h1]
+    simp only
+    rw [setIdx_eq _ (by omega)]
+
+/-- the little-endian byte pattern of a digit list -/
+def bytesOf (bw : Nat) (x : List Nat) : List Nat := x.flatMap (Prim.toLeBytes bw)
+
+theorem toLeBytes_length (bw d : Nat) : (Prim.toLeBytes bw d).length = bw := ofNat_length 8 bw d
+
+theorem bytesOf_length (bw : Nat) (x : List Nat) : (bytesOf bw x).length = x.length * bw := by
+  induction x with
+  | nil => simp [bytesOf]
+  | cons d ds ih =>
+    unfold bytesOf at *
+    rw [List.flatMap_cons, List.length_append, ih, toLeBytes_length, List.length_cons, Nat.add_mul]
+    omega
+
+theorem bytesOf_take_succ (bw : Nat) (x : List Nat) (t : Nat) (ht : t < x.length) :
+    bytesOf bw (x.take (t + 1)) = bytesOf bw (x.take t) ++ Prim.toLeBytes bw x[t] := by
+  unfold bytesOf
+  rw [List.take_succ_eq_append_getElem ht, List.flatMap_append]; simp
+end Endian
+
+theorem UI.toLeBytes_eq {bw sh : Nat} (hbw : bw = 2 ^ sh) {n : Nat} {x : List Nat} (hx : x.length = n) :
+    UI.toLeBytes bw n x = .ok (bytesOf bw x) := by
+  unfold UI.toLeBytes
+  have := forLoop_seq (fun i bytes =>
+      match idx x i with
+      | .ok d => putDigitBytes bw i (Prim.toLeBytes bw d) bytes
+      | .panic => .panic) n 0
+    (fun t => bytesOf bw (x.take t) ++ List.replicate ((n - t) * bw) 0) (by
+      intro t ht
+      simp only [Nat.zero_add]
+      rw [idx_eq (by omega)]
+      simp only
+      have hlen : (bytesOf bw (x.take t)).length = t * bw := by
+        rw [bytesOf_length, List.length_take, Nat.min_eq_left (by omega)]
+      have hsub : (n - t) * bw = bw + (n - (t + 1)) * bw := by
+        rw [show n - t = (n - (t + 1)) + 1 by omega, Nat.add_mul]; omega
+      rw [putDigitBytes_eq hbw t _ _ (toLeBytes_length _ _) (by simp [hlen, hsub]),
+        bytesOf_take_succ bw x t (by omega)]
+      rw [List.take_left' hlen, show t * bw + bw = (bytesOf bw (x.take t)).length + bw by omega,
+        List.drop_append, hsub]
+      simp [List.drop_replicate])
+  simp only [List.take_zero, Nat.sub_zero, Nat.sub_self, Nat.zero_mul, List.replicate_zero,
+    List.append_nil] at this
+  rw [show bytesOf bw [] = [] from rfl, List.nil_append] at this
+  rw [List.take_of_length_le (by omega)] at this
+  exact this
+
+/-- invariant of the `to_be_bytes` loop -/
+theorem Endian.toBeBytesLoop_eq {bw sh : Nat} (hbw : bw = 2 ^ sh) {n : Nat} {x : List Nat}
+    (hx : x.length = n) :
+    ∀ (i : Nat) (suffix : List Nat), i ≤ n → suffix.length = (n - i) * bw →
+      toBeBytesLoop bw n x i (List.replicate (i * bw) 0 ++ suffix)
+        = .ok ((x.drop (n - i)).reverse.flatMap (Prim.toBeBytes bw) ++ suffix) := by
+  intro i
+  induction i with
+  | zero => intro suffix _ _; simp [toBeBytesLoop, List.drop_of_length_le (Nat.le_of_eq hx)]
+  | succ i ih =>
+    intro suffix hi hs
+    rw [toBeBytesLoop, usub_eq hi]
+    simp only
+    rw [idx_eq (by omega)]
+    simp only
+    have hdl : (Prim.toBeBytes bw x[n - (i + 1)]).length = bw := by
+      unfold Prim.toBeBytes; rw [List.length_reverse, toLeBytes_length]
+    rw [putDigitBytes_eq hbw i _ _ hdl (by simp [Nat.add_mul])]
+    simp only
+    have e1 : (List.replicate ((i + 1) * bw) 0 ++ suffix).take (i * bw) = List.replicate (i * bw) 0 := by
+      rw [List.take_append_of_le_length (by simp [Nat.add_mul]), List.take_replicate,
+        Nat.min_eq_left (by rw [Nat.add_mul]; omega)]
+    have e2 : (List.replicate ((i + 1) * bw) 0 ++ suffix).drop (i * bw + bw) = suffix := by
+      rw [show i * bw + bw = (List.replicate ((i + 1) * bw) 0).length by simp [Nat.add_mul],
+        List.drop_left]
+    rw [e1, e2, List.append_assoc, ih _ (by omega) (by
+      rw [List.length_append, hdl, hs, show n - i = (n - (i + 1)) + 1 by omega, Nat.add_mul]; omega)]
+    have e3 : (x.drop (n - i)).reverse.flatMap (Prim.toBeBytes bw) ++ Prim.toBeBytes bw x[n - (i + 1)]
+        = (x.drop (n - (i + 1))).reverse.flatMap (Prim.toBeBytes bw) := by
+      rw [List.drop_eq_getElem_cons (show n - (i + 1) < x.length by omega), List.reverse_cons,
+        List.flatMap_append, show n - (i + 1) + 1 = n - i by omega]
+      simp
+    rw [← List.append_assoc, e3]
+
+theorem UI.toBeBytes_eq {bw sh : Nat} (hbw : bw = 2 ^ sh) {n : Nat} {x : List Nat} (hx : x.length = n) :
+    UI.toBeBytes bw n x = .ok (bytesOf bw x).reverse := by
+  unfold UI.toBeBytes
+  have := toBeBytesLoop_eq hbw hx n [] (Nat.le_refl _) (by simp)
+  rw [List.append_nil] at this
+  rw [this]
+  simp only [Nat.sub_self, List.drop_zero, List.append_nil, bytesOf, List.reverse_flatMap]
+  rfl
+theorem UI.fromLeBytes_eq {bw sh : Nat} (hbw : bw = 2 ^ sh) {n : Nat} {bytes : List Nat}
+    (hlen : bytes.length = n * bw) :
+    UI.fromLeBytes bw n bytes = .ok ((chunks bw n bytes).map (U 8)) := by
+  unfold UI.fromLeBytes
+  rw [forLoop_copy _ ((chunks bw n bytes).map (U 8)) n n 0 0 0 _ _ (by simp) (by omega)
+    (by simp [chunks_length])]
+  · simp [chunks_length]
+  · intro t db' h1 ht hl
+    simp only [Nat.zero_add] at h1 ⊢
+    rw [leDigit_eq hbw bytes t (by
+      have : (t + 1) * bw ≤ n * bw := Nat.mul_le_mul_right _ ht
+      omega)]
+    simp only
+    rw [setIdx_eq _ (by omega)]
+    simp [chunks_getElem, Prim.fromLeBytes]
+
+theorem UI.fromBeBytes_eq {bw sh : Nat} (hbw : bw = 2 ^ sh) {n : Nat} {bytes : List Nat}
+    (hlen : bytes.length = n * bw) :
+    UI.fromBeBytes bw n bytes = .ok ((chunks bw n bytes.reverse).map (U 8)) := by
+  unfold UI.fromBeBytes
+  rw [forLoop_copy _ ((chunks bw n bytes.reverse).map (U 8)) n n 0 0 0 _ _ (by simp) (by omega)
+    (by simp [chunks_length])]
+  · simp [chunks_length]
+  · intro t db' h1 ht hl
+    simp only [Nat.zero_add] at h1 ⊢
+    have hle : (t + 1) * bw ≤ n * bw := Nat.mul_le_mul_right _ ht
+    rw [← hlen, beDigit_eq hbw bytes t (by omega)]
+    simp only
+    rw [setIdx_eq _ (by omega)]
+    simp only [List.getElem_map, chunks_getElem, Prim.fromBeBytes]
+    rw [Nat.add_mul] at hle
+    rw [take_drop_reverse bytes _ _ (by omega)]
+
+theorem UI.fromBeBytes_eq_fromLeBytes_reverse {bw sh : Nat} (hbw : bw = 2 ^ sh) {n : Nat}
+    {bytes : List Nat} (hlen : bytes.length = n * bw) :
+    UI.fromBeBytes bw n bytes = UI.fromLeBytes bw n bytes.reverse := by
+  rw [UI.fromBeBytes_eq hbw hlen, UI.fromLeBytes_eq hbw (by simpa using hlen)]
+
+namespace Endian
+theorem chunks_bytesOf (bw : Nat) : ∀ (x : List Nat),
+    chunks bw x.length (bytesOf bw x) = x.map (Prim.toLeBytes bw) := by
+  intro x
+  induction x with
+  | nil => rfl
+  | cons d ds ih =>
+    have : bytesOf bw (d :: ds) = Prim.toLeBytes bw d ++ bytesOf bw ds := by simp [bytesOf]
+    rw [List.length_cons, chunks, this, List.take_left' (toLeBytes_length bw d),
+      List.drop_left' (toLeBytes_length bw d), ih, List.map_cons]
+
+theorem U_toLeBytes {bw d : Nat} (hd : d < B (8 * bw)) : U 8 (Prim.toLeBytes bw d) = d := by
+  unfold Prim.toLeBytes; rw [U_ofNat, ← B_bytes, Nat.mod_eq_of_lt hd]
+
+theorem toLeBytes_U {bw : Nat} {c : List Nat} (hc : WF 8 bw c) : Prim.toLeBytes bw (U 8 c) = c := by
+  unfold Prim.toLeBytes; exact (eq_ofNat hc).symm
+
+theorem Bytes_toLeBytes (bw d : Nat) : Bytes (Prim.toLeBytes bw d) := by
+  have := (WF_ofNat 8 bw d).2; rw [B8] at this; exact this
+
+theorem Bytes_bytesOf (bw : Nat) (x : List Nat) : Bytes (bytesOf bw x) := by
+  intro b hb
+  unfold bytesOf at hb
+  rw [List.mem_flatMap] at hb
+  obtain ⟨d, _, hd⟩ := hb
+  exact Bytes_toLeBytes bw d b hd
+
+/-- the byte pattern denotes the same number -/
+theorem U_bytesOf {bw n : Nat} {x : List Nat} (hx : WF (8 * bw) n x) : U 8 (bytesOf bw x) = U (8 * bw) x := by
+  induction x generalizing n with
+  | nil => rfl
+  | cons d ds ih =>
+    cases n with
+    | zero => exact absurd hx.1 (by simp)
+    | succ n =>
+      rw [WF_cons] at hx
+      have : bytesOf bw (d :: ds) = Prim.toLeBytes bw d ++ bytesOf bw ds := by simp [bytesOf]
+      rw [this, U_append, toLeBytes_length, ← M_eq_pow, ← B_bytes, U_toLeBytes hx.1, ih hx.2, U_cons]
+
+/-- flattening the chunks gives the bytes back -/
+theorem chunks_flatten (bw : Nat) : ∀ (k : Nat) (bs : List Nat), bs.length = k * bw →
+    (chunks bw k bs).flatten = bs := by
+  intro k
+  induction k with
+  | zero => intro bs h; simp at h; subst h; rfl
+  | succ k ih =>
+    intro bs h
+    rw [Nat.add_mul, Nat.one_mul] at h
+    rw [chunks, List.flatten_cons, ih _ (by simp; omega), List.take_append_drop]
+
+theorem chunks_WF (bw : Nat) : ∀ (k : Nat) (bs : List Nat), Bytes bs → bs.length = k * bw →
+    ∀ c ∈ chunks bw k bs, WF 8 bw c := by
+  intro k
+  induction k with
+  | zero => intro bs _ _ c hc; simp [chunks] at hc
+  | succ k ih =>
+    intro bs hb h c hc
+    rw [Nat.add_mul, Nat.one_mul] at h
+    simp only [chunks, List.mem_cons] at hc
+    rcases hc with rfl | hc
+    · exact ⟨by simp; omega, fun b hb' => by rw [B8]; exact hb b (List.mem_of_mem_take hb')⟩
+    · exact ih (bs.drop bw) (fun b hb' => hb b (List.mem_of_mem_drop hb')) (by simp; omega) c hc
+
+theorem bytesOf_chunks {bw n : Nat} {bytes : List Nat} (hb : Bytes bytes) (hlen : bytes.length = n * bw) :
+    bytesOf bw ((chunks bw n bytes).map (U 8)) = bytes := by
+  unfold bytesOf
+  rw [List.flatMap_def, List.map_map]
+  have : (chunks bw n bytes).map (Prim.toLeBytes bw ∘ U 8) = chunks bw n bytes := by
+    conv_rhs => rw [← List.map_id (chunks bw n bytes)]
+    apply List.map_congr_left
+    intro c hc
+    exact toLeBytes_U (chunks_WF bw n bytes hb hlen c hc)
+  rw [this, chunks_flatten bw n bytes hlen]
+
+theorem map_U_toLeBytes {bw n : Nat} {x : List Nat} (hx : WF (8 * bw) n x) :
+    (x.map (Prim.toLeBytes bw)).map (U 8) = x := by
+  rw [List.map_map]
+  conv_rhs => rw [← List.map_id x]
+  apply List.map_congr_left
+  intro d hd
+  exact U_toLeBytes (hx.2 d hd)
+end Endian
+
+/-- `from_le_bytes(to_le_bytes(a)) = a` -/
+theorem UI.fromLeBytes_toLeBytes {bw sh : Nat} (hbw : bw = 2 ^ sh) {n : Nat} {x : List Nat}
+    (hx : WF (8 * bw) n x) :
+    (UI.toLeBytes bw n x).bind (UI.fromLeBytes bw n) = .ok x := by
+  rw [UI.toLeBytes_eq hbw hx.1]
+  simp only [Outcome.bind]
+  rw [UI.fromLeBytes_eq hbw (by rw [bytesOf_length, hx.1])]
+  conv_lhs => rw [← hx.1, chunks_bytesOf, map_U_toLeBytes hx]
+
+/-- `from_be_bytes(to_be_bytes(a)) = a` -/
+theorem UI.fromBeBytes_toBeBytes {bw sh : Nat} (hbw : bw = 2 ^ sh) {n : Nat} {x : List Nat}
+    (hx : WF (8 * bw) n x) :
+    (UI.toBeBytes bw n x).bind (UI.fromBeBytes bw n) = .ok x := by
+  rw [UI.toBeBytes_eq hbw hx.1]
+  simp only [Outcome.bind]
+  rw [UI.fromBeBytes_eq hbw (by rw [List.length_reverse, bytesOf_length, hx.1]), List.reverse_reverse]
+  conv_lhs => rw [← hx.1, chunks_bytesOf, map_U_toLeBytes hx]
+
+/-- `to_le_bytes(from_le_bytes(b)) = b` -/
+theorem UI.toLeBytes_fromLeBytes {bw sh : Nat} (hbw : bw = 2 ^ sh) {n : Nat} {bytes : List Nat}
+    (hb : Bytes bytes) (hlen : bytes.length = n * bw) :
+    (UI.fromLeBytes bw n bytes).bind (UI.toLeBytes bw n) = .ok bytes := by
+  rw [UI.fromLeBytes_eq hbw hlen]
+  simp only [Outcome.bind]
+  rw [UI.toLeBytes_eq hbw (by simp [chunks_length]), bytesOf_chunks hb hlen]
+
+/-- `to_be_bytes(from_be_bytes(b)) = b` -/
+theorem UI.toBeBytes_fromBeBytes {bw sh : Nat} (hbw : bw = 2 ^ sh) {n : Nat} {bytes : List Nat}
+    (hb : Bytes bytes) (hlen : bytes.length = n * bw) :
+    (UI.fromBeBytes bw n bytes).bind (UI.toBeBytes bw n) = .ok bytes := by
+  rw [UI.fromBeBytes_eq hbw hlen]
+  simp only [Outcome.bind]
+  rw [UI.toBeBytes_eq hbw (by simp [chunks_length]),
+    bytesOf_chunks hb.reverse (by simpa using hlen), List.reverse_reverse]
+
+/-- `from_le_bytes` produces the integer whose pattern is the little-endian number -/
+theorem UI.fromLeBytes_value {bw sh : Nat} (hbw : bw = 2 ^ sh) {n : Nat} {bytes : List Nat}
+    (hb : Bytes bytes) (hlen : bytes.length = n * bw) :
+    ∃ x, UI.fromLeBytes bw n bytes = .ok x ∧ WF (8 * bw) n x ∧ U (8 * bw) x = U 8 bytes := by
+  refine ⟨_, UI.fromLeBytes_eq hbw hlen, ⟨by simp [chunks_length], ?_⟩, ?_⟩
+  · exact chunks_lt bw n bytes hb (by omega)
+  · rw [U_chunks bw n bytes (by omega), List.take_of_length_le (by omega)]
 end Bnum
